@@ -126,7 +126,25 @@ def check(ctx, case):
 		sigs = case['sigs']
 		arrs = [np.array(s, dtype=dt) for s in sigs]
 		cont = case['cont']
-		base = SignatureArray(arrs, kspec, dtype=dt) if cont in ('array', 'annotated-array') else SignatureList(arrs, kspec, dtype=dt)
+		if cont == 'window':
+			# a zero-copy window of a larger SignatureArray: bounds do not start at 0 and do not end at len(values)
+			pad_l, pad_r = np.array([3, 5, 8], dtype=dt), np.array([1, 2], dtype=dt)
+			values = np.concatenate([pad_l] + arrs + [pad_r]) if arrs else np.concatenate([pad_l, pad_r])
+			base = SignatureArray.from_arrays(values, np.cumsum([len(pad_l)] + [len(a) for a in arrs]).astype(np.intp), kspec)
+		else:
+			base = SignatureArray(arrs, kspec, dtype=dt) if cont in ('array', 'annotated-array') else SignatureList(arrs, kspec, dtype=dt)
+		if case.get('prior') == 'default-meta-touched':
+			# earlier in the process somebody filled in the metadata of ANOTHER collection that was created without any
+			other = AnnotatedSignatures(SignatureList([np.array([1, 2], dtype=dt)], kspec), ['z'])
+			other.meta.extra['note'] = 'belongs to the other collection'
+			other.meta.extra.setdefault('list', []).append(1)
+		held = None
+		if case.get('prior') == 'open-handle-then-replace':
+			# the destination already holds another collection, loaded and still open while the file is replaced
+			dump_signatures(sc.path('out.gs'), AnnotatedSignatures(SignatureList([np.array([7, 8, 9], dtype=dt)] * 2, KmerSpec(k + 1 if k < 32 else k - 1, prefix)), ['old-a', 'old-b'],
+			                                                       SignaturesMeta(id='old', name='old collection')))
+			held = load_signatures(sc.path('out.gs'))
+			len(held)
 		ids = mk_ids(ctx.rng if False else __import__('random').Random(case['ids_seed']), case['ids'], len(sigs))
 		meta = None
 		if case.get('meta') is not None:
@@ -142,7 +160,12 @@ def check(ctx, case):
 			if case.get('compression_opts') is not None:
 				kw['compression_opts'] = case['compression_opts']
 		try:
-			dump_signatures(p, obj, **kw)
+			if held is not None:
+				tmp = sc.path('new.gs')
+				dump_signatures(tmp, obj, **kw)
+				os.replace(tmp, p)
+			else:
+				dump_signatures(p, obj, **kw)
 		except Exception as e:
 			return [], [f'dump_signatures raised {exc_kind(e)}: {e}']
 		pf = []
@@ -166,7 +189,8 @@ def check(ctx, case):
 			from gambit.sigs.base import SignatureList as _SL, SignatureArray as _SA
 			if [np.asarray(x).tolist() for x in _SL(loaded)] != lsigs or [np.asarray(x).tolist() for x in _SA(loaded)] != lsigs:
 				pf.append('a collection built from the loaded file differs from the file')
-			line = (f'c12.rt {"1" if fast else "0"} {k} {hx(prefix.encode())} {dt.itemsize} {natlists(sigs)} {nats(raw_values)} {nats(raw_bounds)} '
+			op = 'c12.rtw' if cont == 'window' else f'c12.rt {"1" if fast else "0"}'
+			line = (f'{op} {k} {hx(prefix.encode())} {dt.itemsize} {natlists(sigs)} {nats(raw_values)} {nats(raw_bounds)} '
 			        f'{loaded.kmerspec.k} {hx(loaded.kmerspec.prefix)} {np.dtype(loaded.dtype).itemsize} {natlists(lsigs)} '
 			        f'{canon_ids(exp_ids)} {canon_ids(loaded.ids)} {canon_meta(exp_meta)} {canon_meta(loaded.meta)}')
 			lines = [line]
@@ -186,6 +210,8 @@ def check(ctx, case):
 				lines.append(f'c20.get {natlists(sigs)} {wire_index(idx)} {real}')
 		finally:
 			loaded.close()
+			if held is not None:
+				held.close()
 		case['_nt'] = len(sigs) >= 2 and any(sigs)
 		return lines, pf
 	finally:
@@ -214,13 +240,14 @@ def run(ctx):
 		k = rng.choice([9, 10, 11, 16])
 		U = 4 ** k
 		def big(m):
-			start = rng.randrange(U - 2 * m)
-			return sorted(rng.sample(range(start, start + 2 * m), m))
+			span = min(2 * m, U)
+			start = rng.randrange(U - span + 1)
+			return sorted(rng.sample(range(start, start + span), m))
 		m1 = rng.choice([65535, 65536, 65537, 70000, 140000])
 		sigs = [big(rng.randint(1, 50)) for _ in range(rng.randint(0, 2))] + [big(m1)] + [big(rng.choice([1, 30, 70000])) for _ in range(rng.randint(1, 3))]
 		if rng.random() < 0.3:
 			sigs.insert(rng.randrange(len(sigs)), [])
-		sub({'kind': 'rt', 'k': k, 'prefix': 'ATGAC', 'sigs': sigs, 'cont': rng.choice(['array', 'list', 'annotated-array', 'annotated-list']),
+		sub({'kind': 'rt', 'k': k, 'prefix': 'ATGAC', 'sigs': sigs, 'cont': rng.choice(['array', 'list', 'annotated-array', 'annotated-list', 'window']),
 		     'ids': rng.choice(['default', 'strlist', 'intlist']), 'ids_seed': rng.randrange(10 ** 6), 'meta': None,
 		     'compression': rng.choice([None, None, 'gzip', 'lzf']), 'indexes': [{'t': 'int', 'i': -1}, {'t': 'slice', 'a': None, 'b': None, 'c': -1}]}, 'roundtrip-large')
 	ks = list(range(1, 33))
@@ -255,6 +282,10 @@ def run(ctx):
 			neg = [x - n for x in [a] + mid[::-1] + [a + ln - 1]]
 			idx.append({'t': 'ints', 'l': neg, 'form': 'list'})
 		comp = rng.choice([None, None, 'gzip', 'lzf'])
-		sub({'kind': 'rt', 'k': k, 'prefix': rng.choice(['A', 'AT', 'ATGAC', 'GGC']), 'sigs': sigs, 'cont': rng.choice(['array', 'list', 'annotated-array', 'annotated-list']),
-		     'ids': rng.choice(['default', 'strlist', 'intlist', 'U', 'S', 'O', 'i4', 'u8', 'u8top', 'i8neg']), 'ids_seed': rng.randrange(10 ** 6), 'meta': meta,
+		cont = rng.choice(['array', 'list', 'annotated-array', 'annotated-list', 'window'])
+		idk = rng.choice(['default', 'strlist', 'intlist', 'U', 'S', 'O', 'i4', 'u8', 'u8top', 'i8neg'])
+		if cont == 'window' and rng.random() < 0.6:
+			idk, meta = 'default', None            # the bare window (the whole-array write path)
+		sub({'kind': 'rt', 'k': k, 'prefix': rng.choice(['A', 'AT', 'ATGAC', 'GGC']), 'sigs': sigs, 'cont': cont,
+		     'ids': idk, 'ids_seed': rng.randrange(10 ** 6), 'meta': meta, 'prior': rng.choice([None, None, None, 'default-meta-touched', 'open-handle-then-replace']),
 		     'compression': comp, 'compression_opts': rng.choice([None, 1, 9]) if comp == 'gzip' else None, 'indexes': idx}, 'roundtrip')
